@@ -1024,6 +1024,7 @@ func (c *Client) openWS(query string, extra ...map[string]string) (streamConn, *
 		sconn.in.frag = c.sp.Frag
 	}
 	sconn.in.onFault = c.w.fault
+	sconn.preemptibleWrites = true
 	if c.sp.RecvWindow > 0 {
 		// (the window bites once the client has gone silent and stopped reading, see plan())
 		sconn.out.onFault = c.w.fault
